@@ -27,6 +27,9 @@ func forItems(items *spec.Items) *spec.Schema {
 			Enum:             valids.Enum,
 		},
 	}
+	if items.Items != nil {
+		schema.Items = &spec.SchemaOrArray{Schema: forItems(items.Items)}
+	}
 	return &schema
 }
 
